@@ -26,10 +26,10 @@ TRUSTED = ['PyVC executor (DESIGN 2.3), z3 5.1.0 / cvc5 (string/regex queries of
            'json_getval(render(v)) == v for JSON values and json_getval(s) == s for text that is not JSON (T4)', 'MQ.LOG_MAP is read from the real class']
 ASSUMPTIONS = ['atoms (topic names, option names, addresses, values) contain no separator characters of the configuration grammar and no edge whitespace; option names match [a-zA-Z_]\\w*',
                'list lengths 0..3 for topic mappings / options / sources (entries symbolic)',
-               'decided deductively: the two parsers, the base Filter class, VideoIn, ImageIn, VideoOut, ImageOut (1..2 entries with topic / flag / no-flag / name=json options, text vs list of strings vs list of records), Recorder (output options, 0..2 rules), Util (0..2 parameterless transforms with topic lists, log) and Webvis (convenience output http://host[:port][/] in text and list form, host an opaque atom, port a symbolic integer, class defaults read from the real WebvisConfig, FILTER_ENABLE_JSON / FILTER_SLEEP_INTERVAL unset: os.getenv returns its default); Util size/box transforms, MQTTOut, REST are covered by the bounded native check only (labelled bounded)',
+               'decided deductively: the two parsers, the base Filter class, VideoIn, ImageIn, VideoOut, ImageOut (1..2 entries with topic / flag / no-flag / name=json options, text vs list of strings vs list of records), Recorder (output options, 0..2 rules), Util (0..2 parameterless transforms with topic lists, log) and Webvis (convenience output http://host[:port][/] in text and list form, host an opaque atom, port a symbolic integer, class defaults read from the real WebvisConfig, FILTER_ENABLE_JSON / FILTER_SLEEP_INTERVAL both unset or both set to a concrete padded value: os.getenv by a table); Util size/box transforms, MQTTOut, REST are covered by the bounded native check only (labelled bounded)',
                'endpoint units: is_video_* / is_file / parse_segtime / dict_without / once by assumed contracts; configuration classes (adict subclasses) are records tagged with their class',
                'REST endpoint paths starting with "//" are outside the documented grammar (stripping one leading "/" per pass is not idempotent there)']
-UNDECIDED_CLAUSES = ['idempotence and text==structured form of MQTTOut, REST and of the size/box transforms of Util: bounded native check only; Webvis with its FILTER_* environment overrides set is not in the shapes; unknown-option handling of VideoOut (moved to params) / ImageOut (dropped) is not in the shapes']
+UNDECIDED_CLAUSES = ['idempotence and text==structured form of MQTTOut, REST and of the size/box transforms of Util: bounded native check only; unknown-option handling of VideoOut (moved to params) / ImageOut (dropped) is not in the shapes']
 EXPLANATION = 'Real parsers and the real base normalize_config executed on rope-shaped inputs; results compared structurally with symbolic atoms.'
 
 
@@ -819,17 +819,18 @@ class WebvisNormalizeUnit(Unit):
     RELP = FDIR + 'webvis.py'
     targets = (f'{FDIR}webvis.py::Webvis.normalize_config',)
     required_covers = ('normalised twice',)
-    bounded = {'outputs': 'absent | http://<host> | http://<host>:<port> | http://<host>:<port>/ | http://:<port> (host an opaque atom, port a symbolic integer)', 'environment': 'FILTER_ENABLE_JSON / FILTER_SLEEP_INTERVAL unset'}
+    bounded = {'outputs': 'absent | http://<host> | http://<host>:<port> | http://<host>:<port>/ | http://:<port> (host an opaque atom, port a symbolic integer)', 'environment': "FILTER_ENABLE_JSON / FILTER_SLEEP_INTERVAL both unset or both set (' True ', ' 0.5 ')"}
     mutants = (
         ('Webvis: outputs kept after the host/port were derived', f'{FDIR}webvis.py::Webvis.normalize_config', 'del config.outputs', 'pass', 'C11.'),
+        ('Webvis: boolean override compared unstripped', f'{FDIR}webvis.py::Webvis.normalize_config', 'setattr(config, key, env_val.strip().lower() == "true")', 'setattr(config, key, env_val.lower() == "true")', 'C11.normal_form'),
         ('Webvis: host taken with the port', f'{FDIR}webvis.py::Webvis.normalize_config', "host, *port = addr.rsplit(':', 1)", "host, *port = addr, *addr.rsplit(':', 1)[1:]", 'C11.normal_form'),
     )
 
     def shapes(self, tier):
-        return [(o, ws) for o in ('absent', 'host', 'hostport', 'hostportslash', 'port') for ws in (False, True)]
+        return [(o, ws, env) for o in ('absent', 'host', 'hostport', 'hostportslash', 'port') for ws in (False, True) for env in ('unset', 'set')]
 
     def build(self, ex, shape, form):
-        o, ws = shape
+        o, ws, _env = shape
         host, port = Atom('wv_host', 'host'), Atom('wv_port', 'digits', z3.Int('wv_port'))
         kv = {'id': rope(Atom('the_id', 'name')), 'sources': [rope(Atom('src_addr', 'addr'))]}
         if o != 'absent':
@@ -863,7 +864,8 @@ class WebvisNormalizeUnit(Unit):
             if '_defaults' in d.f:
                 r.f['_defaults'] = d.f['_defaults']
             return r
-        ex.models['osmod'] = type('OsMod', (), {'m_getenv': staticmethod(lambda ex_, o, k, d=None: d)})
+        envtab = {'FILTER_ENABLE_JSON': ' True ', 'FILTER_SLEEP_INTERVAL': ' 0.5 '} if shape[2] == 'set' else {}
+        ex.models['osmod'] = type('OsMod', (), {'m_getenv': staticmethod(lambda ex_, o, k, d=None: envtab.get(k, d))})
         for g in ex.modules.values():
             g.update(FilterConfig=fc_cls, WebvisConfig=cfg_cls, split_commas_maybe=closure(UTILS, 'split_commas_maybe'), MQ=Obj('MQcls', LOG_MAP=log_map), Filter=ClassRef('Filter'),
                      dict_without=Native(dict_without, 'dict_without'), logger=None, os=Obj('osmod'))
@@ -887,6 +889,8 @@ class WebvisNormalizeUnit(Unit):
         want_port = o in ('hostport', 'hostportslash', 'port')
         ok_host = zb(ex.eq(kv.get('host'), rope(Atom('wv_host', 'host')))) if want_host else ('host' not in kv)
         ok_port = zb(ex.eq(kv.get('port'), z3.Int('wv_port'))) if want_port else ('port' not in kv)
+        if shape[2] == 'set':
+            ex.oblige('C11.normal_form(Webvis): the FILTER_* environment overrides end up in the configuration as a bool and a float', zb(kv.get('enable_json') is True and kv.get('sleep_interval') == 0.5))
         ex.oblige('C11.normal_form(Webvis): the convenience output is consumed: no outputs item is left and host / port are exactly the two sides of the last colon',
                   z3.And(zb('outputs' not in kv), zb(ok_host), zb(ok_port)))
         return ex
